@@ -83,6 +83,16 @@ def pairs():
              d1=(CAPA, "collective_saving", dict(min_segment_length=3, max_segment_length=8, collective_penalty_scale=0.3, point_penalty_scale=0.5),
                  dict(min_segment_length=4, max_segment_length=20, collective_penalty_scale=1.0, point_penalty_scale=1.0)),
              d2=(PELT, "cost", dict(min_segment_length=3, penalty_scale=0.2), dict(min_segment_length=4, penalty_scale=0.5))),
+        # private scorers only: the two parameter sets differ in a NESTED scorer hyper-parameter, set through
+        # set_params(collective_saving__param=...) -- the fresh object is constructed with that value directly
+        dict(name="CAPA+MVCAPA/nested scorer parameter", tunes="none", shareable=False, private_only=True,
+             scorer=lambda: L2Cost(param=0.0), cuts=[[0, 3], [4, 9]],
+             d1=(CAPA, "collective_saving", dict(min_segment_length=2, max_segment_length=6, collective_penalty_scale=0.3, point_penalty_scale=0.3,
+                                                 collective_saving__param=0.0),
+                 dict(min_segment_length=2, max_segment_length=6, collective_penalty_scale=0.3, point_penalty_scale=0.3, collective_saving__param=2.0)),
+             d2=(MVCAPA, "collective_saving", dict(min_segment_length=2, max_segment_length=6, collective_penalty_scale=0.3, point_penalty_scale=0.3,
+                                                   collective_saving__param=0.0),
+                 dict(min_segment_length=3, max_segment_length=8, collective_penalty_scale=0.3, point_penalty_scale=0.3, collective_saving__param=-1.5))),
         dict(name="Anomaliser(PELT)+PELT", tunes="none", shareable=False, scorer=lambda: L2Cost(), cuts=[[0, 4], [2, 9]],
              d1=("anomaliser", "cost", dict(stat_lower=-1.0, stat_upper=1.0), dict(stat_lower=-3.0, stat_upper=2.0)),
              d2=(PELT, "cost", dict(min_segment_length=1, penalty_scale=0.2), dict(min_segment_length=3, penalty_scale=0.5))),
@@ -96,7 +106,11 @@ def build(spec, params, scorer):
     cls, kw, p1, p2 = spec
     if cls == "anomaliser":
         return StatThresholdAnomaliser(PELT(cost=scorer, min_segment_length=1, penalty_scale=0.3), **params)
-    return cls(**{kw: scorer}, **params)
+    plain = {k: v for k, v in params.items() if "__" not in k}
+    nested = {k.split("__", 1)[1]: v for k, v in params.items() if "__" in k}
+    if nested:  # construct the scorer WITH the nested value (the fresh object never goes through set_params)
+        scorer = scorer.clone().set_params(**nested) if False else type(scorer)(**{**scorer.get_params(deep=False), **nested})
+    return cls(**{kw: scorer}, **plain)
 
 
 def canon(obj):
@@ -230,6 +244,15 @@ def run_history(args):
             except Exception:
                 pass
             break  # the abstract history assumed success; stop here
+        if got != want and op == "scorer_evaluate" and step.get("alt") != exp:
+            # second admitted reading: the data of the user's own last fit (detectors working on copies)
+            alt = step["alt"]
+            try:
+                want_alt = "NotFitted" if alt == {"m": "NotFitted"} else expected(dict(alt))
+            except Exception as e:
+                want_alt = ("raises", type(e).__name__)
+            if got == want_alt:
+                continue
         if got != want:
             fails.append(("result_differs_from_fresh_object", {**where, "expected_term": exp, "got": str(got)[:300], "fresh": str(want)[:300]}))
             break
@@ -290,6 +313,8 @@ def run(tier: str) -> int:
                     continue
                 if c["sharing"] == "shared" and not pair["shareable"]:
                     continue
+                if pair.get("private_only") and any(st["op"].startswith("scorer_") for st in c["hist"]):
+                    continue  # the history object's scorer is replaced conceptually by set_params; keep to detector calls
                 jobs.append((c, pi))
         with ProcessPoolExecutor(max_workers=stages.NCPU) as ex:
             chunks = [jobs[i::128] for i in range(128) if jobs[i::128]]
